@@ -3,6 +3,8 @@
 // hands pairwise-distinct operands to different positions, so a swapped constructor argument or exchanged accessor
 // cannot hide.  The sweep is replayed in three histories: fresh Lexicon; after 1000 unrelated constructions; after
 // the whole table was already built once on the same Lexicon.
+#include <memory>
+
 #include "zoo/zoo.hpp"
 
 namespace {
@@ -32,6 +34,32 @@ namespace {
       rep.count("traces");
       for (std::size_t i = before; i < c.entries.size(); ++i) rep.member("outcomes", c.entries[i].row);
       if (verbose) std::printf("  rotation %d history %d: %zu artefacts built\n", rot, history, c.entries.size() - before);
+      if (history != 3) return;
+      // history 3: what each node reports must still be what it was given after the whole table has been built again, in
+      // units of their own on the same Lexicon, with every other operand rotation (same factories, colliding keys)
+      const std::size_t n = c.entries.size();
+      c.prop = "";
+      std::vector<std::string> fp(n);
+      for (std::size_t i = 0; i < n; ++i) if (c.entries[i].observe) fp[i] = c.entries[i].observe(c);
+      std::vector<std::unique_ptr<ipr::impl::Translation_unit>> units;
+      std::vector<std::unique_ptr<Ctx>> ctxs;
+      for (int r2 = 0; r2 < 12; ++r2) {
+         if (r2 == rot) continue;
+         units.push_back(std::make_unique<ipr::impl::Translation_unit>(lex));
+         ctxs.push_back(std::make_unique<Ctx>(lex, *units.back()));
+         ctxs.back()->rot = r2;
+         ctxs.back()->prop = "";
+         build_all(*ctxs.back());
+      }
+      for (std::size_t i = 0; i < n; ++i) {
+         auto& e = c.entries[i];
+         if (not e.observe) continue;
+         rep.count("transitions");
+         if (e.observe(c) != fp[i])
+            rep.violation("C02:" + e.row + ":reads-differently-after-later-constructions", rot * 100 + 50,
+                          "what the " + e.iface + " built by row " + e.row + " reports through its accessors is no longer what it was built from once the factories have been used again with other operands [operand rotation " + std::to_string(rot) + "]",
+                          vf::JObj{}.str("pass", "C02").str("row", e.row).raw("ops", vf::jarr(std::vector<long long>{ rot, 3 })).done());
+      }
    }
 }
 
@@ -44,16 +72,16 @@ int main(int argc, char** argv)
       auto ops = vf::json_int_array(vf::slurp(opt.replay), "ops");
       int rot = ops.empty() ? 0 : int(ops[0]);
       std::printf("replay C02: operand rotation %d, all three histories\n", rot);
-      for (int h = 0; h < 3; ++h) sweep(rot, h);
+      for (int h = 0; h < 4; ++h) sweep(rot, h);
       for (auto& [k, v] : rep.viols) std::printf("violated: %s  (%s)\n", k.c_str(), v.what.c_str());
       return rep.viols.empty() ? 0 : 1;
    }
    int job = 0;
    for (int rot = 0; rot < 12; ++rot)
-      for (int h = 0; h < 3; ++h)
+      for (int h = 0; h < 4; ++h)
          if (opt.mine(job++)) sweep(rot, h);
    if (opt.shard == 0) {
-      rep.info("space", vf::JObj{}.num("factory_rows", (long long) zoo::rows().size()).num("operand_rotations", 12).num("histories", 3).done());
+      rep.info("space", vf::JObj{}.num("factory_rows", (long long) zoo::rows().size()).num("operand_rotations", 12).num("histories", 4).done());
       rep.sample(vf::JObj{}.str("row", "make_conditional").str("checked", "condition/then_expr/else_expr == the three distinct operands given, in order; first/second/third likewise; type absent or given; implementation absent").done());
       rep.sample(vf::JObj{}.str("row", "make_new").str("checked", "placement absent / present, initializer, global_requested false then true after setting").done());
    }
